@@ -19,6 +19,8 @@ pub mod ast {
     pub struct Enum { pub name: Ident }
     pub struct Trait { pub lifetimes: LifetimeEnv }
     pub enum CustomType { Struct(Struct), Opaque(OpaqueType), Enum(Enum) }
+    #[verifier::external_body] pub struct Attrs { x: u8 }
+/*@AST_SELFPARAM@*/
     #[verifier::external_body] pub struct Env { x: u8 }
     pub uninterp spec fn spec_resolve(p: PathType, in_path: Path, env: Env) -> CustomType;
     impl PathType {
@@ -71,7 +73,8 @@ impl PrimitiveType {
 #[derive(Copy, Clone)]
 pub enum Slice { Str(Option<MaybeStatic<Lifetime>>, StringEncoding), Primitive(Option<Borrow>, PrimitiveType), Strs(StringEncoding) }
 
-pub struct CallbackParam { pub ty: Type<OutputOnly> }
+#[verifier::external_body] pub struct IdentBuf { s: String }
+pub struct CallbackParam { pub name: Option<IdentBuf>, pub ty: Type<OutputOnly> }
 pub struct Callback { pub param_self: Option<u8>, pub params: Vec<CallbackParam>, pub output: Box<Option<Type<Everywhere>>>, pub name: Option<u8>, pub attrs: Option<u8>, pub docs: Option<u8> }
 
 pub trait TyPosition: Sized {
@@ -90,8 +93,12 @@ impl TyPosition for Everywhere {
     #[verifier::external_body] fn build_callback(cb: Callback) -> Never { unimplemented!() }
     #[verifier::external_body] fn build_trait_path(t: TraitPath) -> Never { unimplemented!() }
 }
+#[derive(Copy, Clone)] pub enum MaybeOwn { Own, Borrow(Borrow) }
+pub struct OutStructPath { pub lifetimes: Lifetimes, pub tcx_id: OutStructId }
+impl OutStructPath { pub fn new(lifetimes: Lifetimes, tcx_id: OutStructId) -> (r: Self) ensures r.lifetimes == lifetimes, r.tcx_id == tcx_id { Self { lifetimes, tcx_id } } }
+pub enum ReturnableStructPath { Struct(StructPath), OutStruct(OutStructPath) }
 impl TyPosition for OutputOnly {
-    type OpaqueOwnership = Borrow; type StructPath = StructPath; type TraitPath = Never; type CallbackInstantiation = Never;
+    type OpaqueOwnership = MaybeOwn; type StructPath = ReturnableStructPath; type TraitPath = Never; type CallbackInstantiation = Never;
     #[verifier::external_body] fn build_callback(cb: Callback) -> Never { unimplemented!() }
     #[verifier::external_body] fn build_trait_path(t: TraitPath) -> Never { unimplemented!() }
 }
@@ -107,16 +114,65 @@ pub enum Type<P: TyPosition> {
     DiplomatOption(Box<Type<P>>),
 }
 
+pub type OutType = Type<OutputOnly>;
+pub enum SuccessType { Write, OutType(OutType), Unit }
+pub enum ReturnType { Infallible(SuccessType), Fallible(SuccessType, Option<OutType>), Nullable(SuccessType) }
+#[verifier::external_body] pub struct LifetimeEnv { x: u8 }
+
 pub trait LifetimeLowerer {
     fn lower_lifetime(&mut self, lifetime: &ast::Lifetime) -> MaybeStatic<Lifetime>;
     fn lower_generics(&mut self, lifetimes: &[ast::Lifetime], type_generics: &ast::LifetimeEnv, is_self: bool) -> Lifetimes;
 }
 
+#[verifier::external_body] pub struct ReturnLifetimeLowerer<'ast> { x: &'ast u8 }
+impl<'ast> LifetimeLowerer for ReturnLifetimeLowerer<'ast> {
+    #[verifier::external_body] fn lower_lifetime(&mut self, lifetime: &ast::Lifetime) -> MaybeStatic<Lifetime> { unimplemented!() }
+    #[verifier::external_body] fn lower_generics(&mut self, lifetimes: &[ast::Lifetime], type_generics: &ast::LifetimeEnv, is_self: bool) -> Lifetimes { unimplemented!() }
+}
+impl<'ast> ReturnLifetimeLowerer<'ast> {
+    #[verifier::external_body] pub fn finish(self) -> LifetimeEnv { unimplemented!() }
+}
+pub struct LoweringConfig { pub unsafe_references_in_callbacks: bool }
+// abstraction of `ty.lifetimes().any(|lt| matches!(lt, MaybeStatic::NonStatic(..)))` (iterator adapter; only decides whether an
+// additional error is pushed, never the Ok/Err outcome)
+#[verifier::external_body] pub fn __type_has_nonstatic_lifetime(ty: &OutType) -> bool { unimplemented!() }
+
 #[derive(Copy, Clone)]
 pub struct BackendAttrSupport { pub option: bool, pub callbacks: bool, pub traits: bool, pub static_slices: bool }
+#[verifier::external_body] pub struct Attrs { x: u8 }
+impl Attrs { #[verifier::external_body] pub fn default() -> Attrs { unimplemented!() } }
+#[derive(Copy, Clone)] pub enum AttributeContext { SelfParam, Param, Other }
 pub trait AttributeValidator {
     spec fn attrs_supported_spec(&self) -> BackendAttrSupport;
     fn attrs_supported(&self) -> (r: BackendAttrSupport) ensures r == self.attrs_supported_spec();
+    // provided methods of the real trait (Attrs::from_ast / Attrs::validate): abstract here, they may only add errors
+    fn attr_from_ast(&self, ast: &ast::Attrs, parent_attrs: &Attrs, errors: &mut ErrorStore) -> (r: Attrs)
+        ensures final(errors).errors@.len() >= old(errors).errors@.len();
+    fn validate(&self, attrs: &Attrs, context: AttributeContext, errors: &mut ErrorStore)
+        ensures final(errors).errors@.len() >= old(errors).errors@.len();
+}
+#[derive(Copy, Clone)] pub struct NonOptional;
+pub enum SelfType { Opaque(OpaquePath<NonOptional, Borrow>), Struct(StructPath), Enum(EnumPath) }
+pub struct ParamSelf { pub ty: SelfType, pub attrs: Attrs }
+impl ParamSelf { pub fn new(ty: SelfType, attrs: Attrs) -> (r: Self) ensures r.ty == ty, r.attrs == attrs { Self { ty, attrs } } }
+#[verifier::external_body] pub struct ParamLifetimeLowerer<'ast> { x: &'ast u8 }
+impl<'ast> LifetimeLowerer for ParamLifetimeLowerer<'ast> {
+    #[verifier::external_body] fn lower_lifetime(&mut self, lifetime: &ast::Lifetime) -> MaybeStatic<Lifetime> { unimplemented!() }
+    #[verifier::external_body] fn lower_generics(&mut self, lifetimes: &[ast::Lifetime], type_generics: &ast::LifetimeEnv, is_self: bool) -> Lifetimes { unimplemented!() }
+}
+#[verifier::external_body] pub struct SelfParamLifetimeLowerer<'ast> { x: &'ast u8 }
+impl<'ast> SelfParamLifetimeLowerer<'ast> {
+    #[verifier::external_body] pub fn lower_self_ref(self, lifetime: &ast::Lifetime) -> (MaybeStatic<Lifetime>, ParamLifetimeLowerer<'ast>) { unimplemented!() }
+    #[verifier::external_body] pub fn no_self_ref(self) -> ParamLifetimeLowerer<'ast> { unimplemented!() }
+}
+
+// ---- oracle: self parameters. Structs by value only, opaques by reference only, out-structs never, enums by value.
+pub open spec fn self_ok(l: &LookupId, sp: ast::SelfParam, in_path: ast::Path, env: Env) -> bool {
+    match ast::spec_resolve(sp.path_type, in_path, env) {
+        ast::CustomType::Struct(st) => l.is_in_struct(st) && (sp.reference is None),
+        ast::CustomType::Opaque(_) => sp.reference is Some,
+        ast::CustomType::Enum(_) => true,
+    }
 }
 
 #[verifier::external_body] pub struct LookupId { x: u8 }
@@ -140,7 +196,66 @@ pub open spec fn is_opaque_path(p: ast::PathType, in_path: ast::Path, env: Env) 
 pub open spec fn named_of(t: ast::TypeName) -> Option<ast::PathType> {
     match t { ast::TypeName::Named(p) => Some(p), ast::TypeName::SelfType(p) => Some(p), _ => None }
 }
-pub uninterp spec fn cb_param_ok(t: ast::TypeName, in_path: ast::Path, env: Env) -> bool;
+// ---- oracle: the documented output-position rules (return values, out-struct fields, callback parameters)
+pub open spec fn allowed_out(t: ast::TypeName, in_path: ast::Path, env: Env, in_struct: bool, in_result_option: bool) -> bool
+    decreases t
+{
+    match t {
+        ast::TypeName::Primitive(_) => true,
+        // Ordering is returned as i8, never stored in a struct
+        ast::TypeName::Ordering => !in_struct,
+        ast::TypeName::Named(p) | ast::TypeName::SelfType(p) => match ast::spec_resolve(p, in_path, env) {
+            // structs and out-structs by value; zero-sized only as the payload of a Result/Option
+            ast::CustomType::Struct(st) => in_result_option || st.fields@.len() > 0,
+            ast::CustomType::Opaque(_) => false,
+            ast::CustomType::Enum(_) => true,
+        },
+        // opaques behind a reference or (outputs only) a Box
+        ast::TypeName::Reference(_, _, inner) => match named_of(*inner) { Some(p) => is_opaque_path(p, in_path, env), None => false },
+        ast::TypeName::Box(inner) => match named_of(*inner) { Some(p) => is_opaque_path(p, in_path, env), None => false },
+        ast::TypeName::Option(inner, sd) => match *inner {
+            ast::TypeName::Reference(_, _, r) => match named_of(*r) {
+                Some(p) => is_opaque_path(p, in_path, env) && sd == StdlibOrDiplomat::Stdlib, None => false },
+            ast::TypeName::Box(b) => match named_of(*b) {
+                Some(p) => is_opaque_path(p, in_path, env) && sd == StdlibOrDiplomat::Stdlib, None => false },
+            ast::TypeName::Named(p) | ast::TypeName::SelfType(p) =>
+                !is_opaque_path(p, in_path, env) && !(in_struct && sd == StdlibOrDiplomat::Stdlib)
+                && allowed_out(*inner, in_path, env, in_struct, true),
+            ast::TypeName::Primitive(_) => !(in_struct && sd == StdlibOrDiplomat::Stdlib),
+            _ => false,
+        },
+        ast::TypeName::Result(..) => false,
+        ast::TypeName::Write => false,
+        // borrowed slices only; owned slices cannot be returned
+        ast::TypeName::StrReference(lt, _, _) => lt is Some,
+        ast::TypeName::PrimitiveSlice(lm, _, _) => lm is Some,
+        ast::TypeName::StrSlice(..) => false,
+        ast::TypeName::Unit => false,
+        ast::TypeName::Function(..) => false,
+        ast::TypeName::ImplTrait(_) => false,
+    }
+}
+
+// callback parameters are lowered as outputs (not in a struct, not in a Result/Option)
+pub open spec fn cb_param_ok(t: ast::TypeName, in_path: ast::Path, env: Env) -> bool {
+    allowed_out(t, in_path, env, false, false)
+}
+
+// ---- oracle: return types. Result only at top level; unit arms allowed; Option<pointer> stays a (nullable) pointer
+pub open spec fn unit_or_out(t: ast::TypeName, in_path: ast::Path, env: Env) -> bool {
+    (t is Unit) || allowed_out(t, in_path, env, false, true)
+}
+pub open spec fn return_ok(rt: Option<ast::TypeName>, in_path: ast::Path, env: Env) -> bool {
+    match rt {
+        None => true,
+        Some(ast::TypeName::Unit) => true,
+        Some(ast::TypeName::Result(ok, err, _)) => unit_or_out(*ok, in_path, env) && unit_or_out(*err, in_path, env),
+        Some(ast::TypeName::Option(v, sd)) =>
+            if (*v is Box) || (*v is Reference) { allowed_out(ast::TypeName::Option(v, sd), in_path, env, false, true) }
+            else { unit_or_out(*v, in_path, env) },
+        Some(t) => allowed_out(t, in_path, env, false, false),
+    }
+}
 
 pub open spec fn all_cb_ok(ts: Seq<Box<ast::TypeName>>, in_path: ast::Path, env: Env) -> bool {
     forall|i: int| 0 <= i < ts.len() ==> cb_param_ok(*#[trigger] ts[i], in_path, env)
@@ -192,15 +307,9 @@ pub struct LoweringContext<'ast, V: AttributeValidator> {
     pub errors: ErrorStore,
     pub env: &'ast Env,
     pub attr_validator: Box<V>,
+    pub cfg: LoweringConfig,
 }
 
 impl<'ast, V: AttributeValidator> LoweringContext<'ast, V> {
-    #[verifier::external_body]
-    fn lower_callback_param(&mut self, name: Option<u8>, ty: &ast::TypeName, ltl: &mut impl LifetimeLowerer, in_path: &ast::Path) -> (res: Result<CallbackParam, ()>)
-        ensures res.is_ok() == cb_param_ok(*ty, *in_path, *old(self).env),
-            final(self).env == old(self).env, final(self).lookup_id == old(self).lookup_id,
-            final(self).attr_validator == old(self).attr_validator,
-            final(self).errors.errors@.len() >= old(self).errors.errors@.len(),
-            res.is_err() ==> final(self).errors.errors@.len() > old(self).errors.errors@.len(),
-    { unimplemented!() }
+
 
